@@ -144,6 +144,15 @@ def layout_descs(maxlen):
                             except Exception as e:                      # noqa: BLE001  reported as an error row by main()
                                 desc = e
                             yield desc, name, nd, refocus
+                        if nd == 3 and direction is code:
+                            # the caller's own qubit-to-channel map (here: the chain numbered backwards, with a gap)
+                            name = '%s:%s:ownmap' % (lay.__class__.__name__, '-'.join(q.id for q in sub))
+                            try:
+                                desc = RepetitionCodeDescription.from_connectivity(involved_qubit_ids=sub, connectivity=lay,
+                                                                                   qubit_index_map={q: len(sub) - i + (1 if i < 2 else 0) for i, q in enumerate(sub)})
+                            except Exception as e:                      # noqa: BLE001
+                                desc = e
+                            yield desc, name, nd, True
 
 
 def main(out, dmax, cmax, nlayout, seed, anc_states):
@@ -184,6 +193,9 @@ def main(out, dmax, cmax, nlayout, seed, anc_states):
     for desc, name, nd, rf in lds:
         if nd == 2 and rf and ':norefocus' not in name:
             rows += guarded(one, desc, name, nd, (1, 0), None, 1, 'main', refocus=rf, _many=True, _label=name)
+    own = [x for x in lds if x[1].endswith(':ownmap')]
+    for desc, name, nd, rf in own[:3]:
+        rows += guarded(one, desc, name, nd, (1, 0, 1), (0, 1), 2, 'main', refocus=rf, _many=True, _label=name)
     json.dump(rows, open(out, 'w'))
     print(len(rows))
 
